@@ -312,6 +312,13 @@ def run(ctx, rep):
     # ---- C11.e -------------------------------------------------------------------------------------
     PN = prog.find1(r"^rustic_core::archiver::parent::Parent::p_node$")
     pcl = prog.closures_of(PN, recursive=False)
+    # the cursor walk may live in p_node itself or in a helper of the same module it (or its closure) calls
+    for b_ in [PN] + list(pcl):
+        for _, t_ in b_.calls():
+            h_ = prog.bodies.get(callee(t_)) if "callee" in t_ else None
+            if h_ is not None and h_ not in pcl and h_ is not PN and "archiver::parent" in h_.path and not h_.is_closure():
+                pcl = list(pcl) + [h_]
+    pcl = list(pcl) + [PN]
     oke = False
     for c in pcl:
         incs = [bi for bi, blk in enumerate(c.blocks) for s in blk["s"] if s[0] == "=" and s[2][0] == "bin" and s[2][1] in ("AddWithOverflow", "Add") and "usize" in s[2][4]]
@@ -325,7 +332,12 @@ def run(ctx, rep):
                 if e[0] == "discr" and "Ordering" in e[2]:
                     v = [vv for vv, x in c.term(sw)["targets"] if x == succ]
                     # Ordering::Less has discriminant -1 (printed as 255 / -1)
-                    if v and v[0] in ("-1", "255", "18446744073709551615"):
+                    LESS = ("-1", "255", "18446744073709551615")
+                    if c.term(sw)["otherwise"] == succ:
+                        # `_ => *idx += 1`: the edge stands for every Ordering value without an arm of its own
+                        listed = [vv for vv, _x in c.term(sw)["targets"]]
+                        v = v + [o_ for o_, alts in (("-1", LESS), ("0", ("0",)), ("1", ("1",))) if not any(a_ in listed for a_ in alts)]
+                    if v and all(x_ in LESS for x_ in v):
                         dep = True
             good = good and dep
         oke = good
